@@ -122,7 +122,10 @@ def check_slots(ck, R1):
                 "fills exactly one result slot, at the element's input position; the list is returned unfiltered and unsorted", 5)
     br = FA(ck, RL + ".LocalRunnerBackend.batch_run")
     inp = "fn_reference_with_args"
-    fills = _check_index_fills(ck, br, R1, inp, "results", "batch")
+    # the result list is whatever local batch_run returns (its name does not matter)
+    rets0 = br.returns()
+    RES = rets0[0].value.id if len(rets0) == 1 and isinstance(rets0[0].value, ast.Name) else "results"
+    fills = _check_index_fills(ck, br, R1, inp, RES, "batch")
     loops = [n for n in br.cfg.nodes if n.kind == "for" and isinstance(n.ast.iter, ast.Call) and A.call_attr(n.ast.iter) == "enumerate"
              and n.ast.iter.args and _is_input_seq(br, n.ast.iter.args[0], n.id, inp)]
     if len(loops) != 1:
@@ -130,18 +133,18 @@ def check_slots(ck, R1):
         return None, br
     loop = loops[0]
     if not fills:
-        _one_append_per_iteration(ck, br, loop, "results", R1, "batch")
+        _one_append_per_iteration(ck, br, loop, RES, R1, "batch")
     else:
         # indexed form: every iteration assigns its slot or hands the element on unchanged; an
         # element that is deferred must be filled by a later loop at its own position (checked above)
-        appends = [c for c in br.calls("append") if A.dotted(A.call_recv(c)) == "results"]
+        appends = [c for c in br.calls("append") if A.dotted(A.call_recv(c)) == RES]
         ck.ob(R1, br.key(loop.ast, "batch-no-mixed-forms"), not appends, "slots are filled by index only" if not appends else
               "results are filled both by index and by append", br.where(loop.ast))
     rets = br.returns()
-    okr = len(rets) == 1 and A.norm(rets[0].value) == "results"
-    ck.ob(R1, br.key(rets[0] if rets else None, "returned-as-is"), okr, "results are returned unfiltered, in slot order" if okr else
+    okr = len(rets) == 1 and isinstance(rets[0].value, ast.Name)
+    ck.ob(R1, br.key(None, "returned-as-is"), okr, "results are returned unfiltered, in slot order" if okr else
           "batch_run does not return the plain results list", br.where())
-    muts = [c for c in br.calls() if A.dotted(A.call_recv(c)) == "results" and A.call_attr(c) in ("sort", "reverse", "insert", "pop", "remove", "extend", "clear")]
+    muts = [c for c in br.calls() if A.dotted(A.call_recv(c)) == RES and A.call_attr(c) in ("sort", "reverse", "insert", "pop", "remove", "extend", "clear")]
     ck.ob(R1, br.key(None, "no-reordering"), not muts, "results is only filled, never reordered" if not muts else
           "results is reordered or edited (%s)" % A.short(muts[0], 40), br.where(muts[0] if muts else None))
     # the element handler turns an exception into that element's slot
@@ -151,35 +154,56 @@ def check_slots(ck, R1):
         for h in t.handlers:
             if h.type is not None and A.norm(h.type) == "Exception" and h.name:
                 st_ = [n for n in A.walk_local(h) if (isinstance(n, ast.Call) and A.call_attr(n) == "append" and n.args and A.norm(n.args[0]) == h.name)
-                       or (isinstance(n, ast.Assign) and isinstance(n.targets[0], ast.Subscript) and A.norm(n.targets[0].value) == "results" and A.norm(n.value) == h.name)]
+                       or (isinstance(n, ast.Assign) and isinstance(n.targets[0], ast.Subscript) and A.norm(n.targets[0].value) == RES and A.norm(n.value) == h.name)]
                 if st_:
                     okh = True
     ck.ob(R1, br.key(loop.ast, "failure-in-slot"), okh, "a failing element's exception (of any class) is stored in its own slot" if okh else
           "an element's exception is not caught as `Exception` and stored in its slot: an error raised while running one element aborts or shifts the batch", br.where(loop.ast))
     # ---- merge in get_mementos
     gm = FA(ck, "storage_base.StorageBackendBase.get_mementos")
-    gfills = _check_index_fills(ck, gm, R1, "fns", "results", "merge")
+    # roles: RESG = the returned list; QR = what the metadata source answered for QF; QF = the list of
+    # misses; CACHE = the per-position cache answers; the cursor is the counter indexing QR
+    gr = gm.returns()
+    RESG = gr[0].value.id if len(gr) == 1 and isinstance(gr[0].value, ast.Name) else "results"
+    qcalls = [c for c in gm.calls("get_mementos") if A.norm(A.call_recv(c)) == "self._metadata_source"]
+    qcall = gm.one(qcalls, "metadata-source get_mementos call")
+    QF = qcall.args[0].id if qcall.args and isinstance(qcall.args[0], ast.Name) else None
+    qst = gm.stmt_of(qcall)
+    QR = qst.targets[0].id if isinstance(qst, ast.Assign) and isinstance(qst.targets[0], ast.Name) and qst.value is qcall else None
+    ccalls = [c for c in gm.calls("get_mementos") if A.norm(A.call_recv(c)) == "self._memory_cache"]
+    cst = gm.stmt_of(ccalls[0]) if ccalls else None
+    CACHE = cst.targets[0].id if isinstance(cst, ast.Assign) and isinstance(cst.targets[0], ast.Name) else None
+    gfills = _check_index_fills(ck, gm, R1, "fns", RESG, "merge")
     mloops = [n for n in gm.cfg.nodes if n.kind == "for" and not isinstance(gm.pm.get(n.ast), ast.comprehension) and A.norm(n.ast.iter) in ("range(0, len(fns))", "range(len(fns))")]
     if not gfills:
         if len(mloops) != 1:
             ck.ob(R1, gm.key(None, "merge-loop"), False, "get_mementos has no single merge loop over the input positions", gm.where())
         else:
             ml = mloops[0]
-            _one_append_per_iteration(ck, gm, ml, "results", R1, "merge")
-            incs = [s_ for s_ in gm.stmts(ast.AugAssign) if isinstance(s_.target, ast.Name) and s_.target.id == "query_index"]
-            oki = len(incs) == 1
+            lv = ml.ast.target.id if isinstance(ml.ast.target, ast.Name) else None
+            _one_append_per_iteration(ck, gm, ml, RESG, R1, "merge")
+            uses = [n for n in A.walk_local(ml.ast) if isinstance(n, ast.Subscript) and A.norm(n.value) == QR and isinstance(n.slice, ast.Name)]
+            cursor = uses[0].slice.id if uses else None
+            incs = [s_ for s_ in gm.stmts(ast.AugAssign) if isinstance(s_.target, ast.Name) and s_.target.id == cursor
+                    and isinstance(s_.op, ast.Add) and A.norm(s_.value) == "1"]
+            oki = len(incs) == 1 and QR is not None and CACHE is not None
             if oki:
-                uses = [n for n in A.walk_local(ml.ast) if isinstance(n, ast.Subscript) and A.norm(n.value) == "query_result"]
                 g_inc = gm.enclosing(incs[0], ast.If)
                 g_use = gm.enclosing(uses[0], ast.If) if uses else None
-                oki = bool(uses) and g_inc is g_use and g_inc is not None and incs[0] in g_inc.body and A.norm(g_inc.test) in ("cr is None",) \
+                miss_test = g_inc is not None and isinstance(g_inc.test, ast.Compare) and isinstance(g_inc.test.ops[0], ast.Is) \
+                    and A.norm(g_inc.test.comparators[0]) == "None" and gm.xnorm(g_inc.test.left, gm.nodes(g_inc.test)[0]) == "%s[%s]" % (CACHE, lv)
+                oki = bool(uses) and g_inc is g_use and g_inc is not None and incs[0] in g_inc.body and miss_test \
                     and all(gm.cfg.must_pass(gm.nodes(uses[0]), i) for i in gm.nodes(incs[0]))
             ck.ob(R1, gm.key(None, "miss-counter"), oki, "the store-result cursor advances exactly on cache misses" if oki else
                   "the cursor into the store results does not advance exactly once per cache miss: results are attributed to the wrong calls", gm.where())
-            qf = [s_ for s_ in gm.stmts(ast.Assign) if any(isinstance(t, ast.Name) and t.id == "query_fns" for t in s_.targets)]
-            okq = len(qf) == 1 and isinstance(qf[0].value, ast.ListComp) and A.norm(qf[0].value.generators[0].iter) == "range(0, len(fns))" \
-                and [A.norm(c) for c in qf[0].value.generators[0].ifs] == ["cache_result[i] is None"] and A.norm(qf[0].value.elt) == "fns[i]"
-            ck.ob(R1, gm.key(qf[0] if qf else None, "miss-list"), okq, "the store is queried for exactly the cache misses, in order" if okq else
+            qf = [s_ for s_ in gm.stmts(ast.Assign) if QF is not None and any(isinstance(t, ast.Name) and t.id == QF for t in s_.targets)]
+            okq = False
+            if len(qf) == 1 and isinstance(qf[0].value, ast.ListComp) and len(qf[0].value.generators) == 1:
+                g_ = qf[0].value.generators[0]
+                cv = g_.target.id if isinstance(g_.target, ast.Name) else None
+                okq = A.norm(g_.iter) in ("range(0, len(fns))", "range(len(fns))") and [A.norm(c) for c in g_.ifs] == ["%s[%s] is None" % (CACHE, cv)] \
+                    and A.norm(qf[0].value.elt) == "fns[%s]" % cv
+            ck.ob(R1, gm.key(None, "miss-list"), okq, "the store is queried for exactly the cache misses, in order" if okq else
                   "the list of store queries is not exactly the cache misses in input order", gm.where())
     return loop, br
 
@@ -214,12 +238,15 @@ def check(ck):
     ck.ob(R2, br.key(loop.ast, "loop-sequence"), ok3, "the loop enumerates the input sequence (optionally wrapped for progress display)" if ok3 else
           "the loop does not enumerate the input sequence in order", br.where(loop.ast))
     idx = loop.ast.target.elts[0].id if isinstance(loop.ast.target, ast.Tuple) else None
-    subs = [n for n in A.walk_local(loop.ast) if isinstance(n, ast.Subscript) and A.norm(n.value) == "existing_mementos"]
+    pst = br.stmt_of(pre)
+    EM = pst.targets[0].id if isinstance(pst, ast.Assign) and isinstance(pst.targets[0], ast.Name) and pst.value is pre else None  # the bulk answer
+    subs = [n for n in A.walk_local(loop.ast) if isinstance(n, ast.Subscript) and EM is not None and A.norm(n.value) == EM]
     ok4 = bool(subs) and all(A.norm(s.slice) == idx for s in subs)
     ck.ob(R2, br.key(loop.ast, "indexing"), ok4, "existing mementos are read at the loop index" if ok4 else
           "existing mementos are not indexed with the loop index", br.where(loop.ast))
     emr = [c for c in br.calls("process_existing_memento")]
-    ok5 = bool(emr) and all(len(c.args) >= 2 and A.norm(c.args[1]) == "existing_memento" for c in emr)
+    ok5 = bool(emr) and idx is not None and all(len(c.args) >= 2 and br.xnorm(c.args[1], br.nodes(c)[0]).startswith("storage_backend.get_mementos(")
+                                                and br.xnorm(c.args[1], br.nodes(c)[0]).endswith(")[%s]" % idx) for c in emr)
     ck.ob(R2, br.key(None, "served-from-own-memento"), ok5, "an element is served from its own memento" if ok5 else
           "process_existing_memento is not given the element's own memento", br.where())
 
